@@ -358,9 +358,9 @@ def oracle_C13(result):
             # children entered from this context that are still open
             kids = [j for j, st in enumerate(life[i]) if st in ("open", "closing") and j != op["c"]
                     and parent_of(result, j) == op["c"]]
-            if kids and out.get("outcome") is None:
+            if kids and not out["corrupt"]:
                 bad.append(("C13:open-child-ignored", f"step {i}: context {op['c']} was left while its children "
-                            f"{kids} are open and no error was reported", i))
+                            f"{kids} are open and this was not reported (the exit ended with {out.get('outcome')})", i))
             if not kids and out["corrupt"]:
                 bad.append(("C13:false-corruption", f"step {i}: stack corruption reported for context "
                             f"{op['c']} without open children", i))
